@@ -36,11 +36,18 @@ const (
 	// does not know this number: sizes come from bulkSize)
 	largeBatch = 512
 	// log tails longer than this are never enumerated byte by byte
-	bigTail      = 1024
-	bigTailCuts  = 24
-	recBlockSize = 32 * 1024 // Pebble's record block
-	smallLogCap  = 28000     // runs without a bulk append stop growing a log file here (one record block)
-	bulkLogCap   = 400000
+	bigTail     = 1024 // runs with a bulk append only
+	bigTailCuts = 24
+	// Pebble's record reader answers a checksum mismatch with a bit-flip diagnosis that recomputes the
+	// checksum of the fragment once per bit (quadratic: seconds for a 32 KiB fragment). In big tails a
+	// corrupted image (flip, zero fill) is therefore generated only where the fragment holding the byte
+	// cannot be longer than cheapFragment, plus one tape-chosen sample point per tail where it cannot be
+	// longer than dearFragment.
+	cheapFragment = 2048
+	dearFragment  = 8192
+	recBlockSize  = 32 * 1024 // Pebble's record block
+	smallLogCap   = 28000     // runs without a bulk append stop growing a log file here (one record block)
+	bulkLogCap    = 400000
 )
 
 type poss struct {
@@ -130,6 +137,7 @@ func C14(c *sim.Ctx) {
 				if t.Draw("bulk_again", 4) == 3 {
 					w.bulkAt = i + 1 + t.Draw("bulk_again_at", 4)
 				}
+				n = min(n, i+1+6) // every later restart parses the large log again: few operations follow
 			}
 			w.randomOp()
 		}
@@ -277,13 +285,21 @@ func (w *w14) evalPoint(cp *capture, where string, allowedStates []*MState) {
 		if stride == 1 && w.nTails > 2 && len(full)-sl > 48 {
 			stride = 5
 		}
-		if tail := len(full) - sl; tail > bigTail {
+		if w.bulk && len(full) > recBlockSize && stride < 8 {
+			stride = 8 // every restart of a multi-block log parses thousands of records
+		}
+		if tail := len(full) - sl; w.bulk && tail > bigTail {
 			// the tail of a large batch: about bigTailCuts sampled offsets (tape-chosen phase) plus every
 			// record-block boundary, the first and the last byte
 			if s := (tail + bigTailCuts - 1) / bigTailCuts; s > stride {
 				stride = s
 			}
 			w.c.Probe("big_tail_sampled")
+		}
+		big := w.bulk && len(full)-sl > bigTail
+		dearAt, nSampled := -1, 0
+		if big {
+			dearAt = w.c.T.Draw("big_corrupt_at", bigTailCuts)
 		}
 		phase := 0
 		if stride > 1 {
@@ -298,6 +314,16 @@ func (w *w14) evalPoint(cp *capture, where string, allowedStates []*MState) {
 			img := cp.F.Clone()
 			img[n] = full[:L]
 			w.evalImage(img, where, "cut", allowed)
+			if big {
+				// upper bound of the length of the record fragment that holds byte L
+				blockStart := L / recBlockSize * recBlockSize
+				frag := min(len(full), blockStart+recBlockSize) - max(sl, blockStart)
+				nSampled++
+				if frag > cheapFragment && !(frag <= dearFragment && nSampled-1 == dearAt) {
+					continue
+				}
+				w.c.Probe("big_tail_corrupted_image")
+			}
 
 			fl := append([]byte(nil), full...)
 			fl[L] ^= byte(1) << uint(L%8)
